@@ -43,6 +43,11 @@ def main():
   meta = {'name': name, 'property': prop, 'needs_to_manifest': needs, 'repo_head': head, 'ran': {}}
   try:
     rc, out = sh('git apply %s' % os.path.join(dst, 'patch.diff'), cwd=wt)
+    if rc != 0:
+      # the change was made against an earlier HEAD: merge it
+      rc, out = sh('git apply --3way %s' % os.path.join(dst, 'patch.diff'), cwd=wt)
+      if rc == 0:
+        sh('git reset -q', cwd=wt)
     meta['ran']['git apply on a fresh worktree of /repo HEAD'] = 'ok' if rc == 0 else 'FAILED: ' + out[-300:]
     if rc != 0:
       raise SystemExit('patch does not apply')
